@@ -1,6 +1,7 @@
 package props
 
 import (
+	"encoding/json"
 	"fmt"
 	"net/url"
 	"os"
@@ -69,3 +70,5 @@ func selfTest(t *testing.T) {
 func TestSelf(t *testing.T) { selfTest(t) }
 
 func jwkPtr(k jose.JSONWebKey) *jose.JSONWebKey { return &k }
+
+func jsonMarshal(v any) ([]byte, error) { return json.Marshal(v) }
